@@ -317,7 +317,13 @@ def _finish(coll, low):
     import pandas as pd
     if len(parts) == 1:
         return parts[0]
-    return pd.concat(parts)
+    out = pd.concat(parts)
+    names = [p.index.name for p in parts if len(p)]
+    if len(set(names)) > 1:
+        # partitions that disagree on the index NAME (a per-partition schema matter, judged by C07): pandas drops the name when
+        # concatenating, compute() keeps the first one - take the first so that both executions are read alike
+        out.index.name = names[0]
+    return out
 
 
 def run_compute(coll, **kw):
